@@ -65,8 +65,8 @@ class Engine(CoreMixin, ExprMixin, CallMixin, StmtMixin, BuiltinMixin):
             spec_ns, mods = spec_namespace()
             self.ctab.register_module_classes(mods)
         self.spec_names = spec_ns
-        self.inline_keys = set(inline_keys)
-        self.attr_kinds = {}
+        self.inline_keys = set(inline_keys) | {"statham.schema.validation.base:Validator.__init__"}
+        self.attr_kinds = {"params": ("dict", None)}
 
     # ------------------------------------------------------------------ set-up per function
     def reset(self, contract, fi, cname):
@@ -90,6 +90,7 @@ class Engine(CoreMixin, ExprMixin, CallMixin, StmtMixin, BuiltinMixin):
         self.cur_defcls = fi.cls
         self._bm = None
         self.spec_state = None
+        self.set_src = {}
 
     def contract_allows(self, ecls):
         for names, _ in self.contract.raises + self.contract.may_raise:
@@ -105,6 +106,7 @@ class Engine(CoreMixin, ExprMixin, CallMixin, StmtMixin, BuiltinMixin):
 
     def entry_state(self, contract, fi):
         st = St()
+        self.entry_kind_checks = []
         a = fi.node.args
         cls = self.concrete_class(contract, fi)
         params = [p.arg for p in a.posonlyargs + a.args]
@@ -138,6 +140,8 @@ class Engine(CoreMixin, ExprMixin, CallMixin, StmtMixin, BuiltinMixin):
             v = Val(self.declare("in_" + p), kind=kind, cls=kcls, origin=p)
             env[p] = v
             self.input_terms[p] = v.t
+            if kind:
+                self.entry_kind_checks.append((p, (kind, kcls), v.t))
         if a.vararg:
             n = contract.kinds.get("*" + a.vararg.arg)
             if n is None:
@@ -172,10 +176,13 @@ class Engine(CoreMixin, ExprMixin, CallMixin, StmtMixin, BuiltinMixin):
         try:
             st = self.entry_state(contract, fi)
             entry_env = dict(st.env)
-            sp0 = SpecEval(self, entry_env)
+            sp0 = SpecEval(self, entry_env, glob=fi.glob)
             pre = sp0.compile_bool(contract.requires)
             st.assume(pre)
+            for pname, hint, t in self.entry_kind_checks:
+                self.obl("kind", fi.node, st, self.kind_pred(hint, t), detail=f"parameter {pname} is {hint[0]}")
             self.entry_pc = st.pc
+            self.cover(fi.node, st, "entry (requires satisfiable)")
             outcomes = self.exec_block(st, fi.node.body)
             rep.paths = len(outcomes)
             self.post_obligations(contract, fi, entry_env, outcomes)
@@ -202,8 +209,8 @@ class Engine(CoreMixin, ExprMixin, CallMixin, StmtMixin, BuiltinMixin):
                 res = PyC(None) if sig is None else sig[1]
                 node = end
                 env = {**entry_env, "result": res}
-                sp_pre = SpecEval(self, entry_env)
-                sp = SpecEval(self, env, old_env=entry_env)
+                sp_pre = SpecEval(self, entry_env, glob=fi.glob)
+                sp = SpecEval(self, env, old_env=entry_env, glob=fi.glob)
                 for names, cond in contract.raises:
                     self.spec_state = None
                     c = sp_pre.compile_bool(cond)
@@ -211,7 +218,7 @@ class Engine(CoreMixin, ExprMixin, CallMixin, StmtMixin, BuiltinMixin):
                     self.obl("post@return", node, st, Not(c), detail=f"returns although `{cond}` (must raise {'/'.join(names)})")
                 self.obl("post@return", node, st, sp.compile_bool(contract.returns), detail=f"ensures {contract.returns}")
                 if "warns" in contract.ghost:
-                    want = SpecEval(self, env).compile_bool(contract.ghost["warns"])
+                    want = SpecEval(self, env, glob=fi.glob).compile_bool(contract.ghost["warns"])
                     n = st.ghost.get("warns", 0)
                     self.obl("post@return", node, st, Eq(want, TRUE if n == 1 else FALSE) if n in (0, 1) else FALSE,
                              detail=f"exactly one warning iff {contract.ghost['warns']} (path issued {n})")
@@ -219,7 +226,7 @@ class Engine(CoreMixin, ExprMixin, CallMixin, StmtMixin, BuiltinMixin):
             elif sig[0] == "raise":
                 exc = sig[1]
                 node = exc.node or end
-                sp_pre = SpecEval(self, entry_env)
+                sp_pre = SpecEval(self, entry_env, glob=fi.glob)
                 self.spec_state = None
                 allowed = []
                 for names, cond in contract.raises + contract.may_raise:
